@@ -55,18 +55,25 @@ fn from_tape(data: &[u16]) -> (String, Vec<Step>) {
         if t.pick(2) == 0 {
             steps.push(Step { cmd: "ucinewgame".into(), timing: Timing::AfterMs(0) });
         }
-        let root = match t.pick(5) {
+        let kind = t.pick(6);
+        // heavy capture storm (7-9 queens a side): the first root move alone outlasts the polling
+        // distance, so a stop or an expired limit is seen before any root move has been searched
+        let storm = kind == 5;
+        let root = match kind {
             0 | 1 => super::searchlib::forced_theme(&mut t),
             2 => crate::gen::gen_root(&mut t, crate::gen::Mix::Sparse).map(|g| g.pos),
             3 => super::searchlib::fortress_theme(&mut t),
-            _ => super::searchlib::mate_theme(&mut t),
+            4 => super::searchlib::mate_theme(&mut t),
+            _ => super::searchlib::storm_theme_sized(&mut t, true),
         };
         if let Some(p) = root.filter(|p| !p.legal_moves().is_empty()) {
             steps.push(Step { cmd: format!("position fen {}", p.to_fen()), timing: Timing::AfterMs(0) });
             let go = match t.pick(5) {
                 0 | 1 => format!("go wtime {} btime {} winc 0 binc 0", 100 + t.pick(600), 100 + t.pick(600)),
+                // (a depth-limited search of a storm is unbounded in time: a short move time instead)
+                2 if storm => format!("go movetime {}", 1 + t.pick(4)),
                 2 => format!("go depth {}", 1 + t.pick(4)),
-                3 => format!("go movetime {}", 5 + t.pick(56)),
+                3 => format!("go movetime {}", if storm { 1 + t.pick(30) } else { 5 + t.pick(56) }),
                 _ => "go infinite".to_string(),
             };
             steps.push(Step { cmd: go, timing: Timing::AfterMs(0) });
@@ -81,6 +88,11 @@ fn from_tape(data: &[u16]) -> (String, Vec<Step>) {
                 _ => {}
             }
             steps.push(Step { cmd: "isready".into(), timing: Timing::AfterMs(0) });
+            if storm {
+                // the rest of the session may search to a fixed depth: not on this position
+                steps.push(Step { cmd: "stop".into(), timing: Timing::AfterMs(0) });
+                steps.push(Step { cmd: "position startpos".into(), timing: Timing::AfterMs(0) });
+            }
         }
     }
     for _ in 0..n {
